@@ -23,7 +23,7 @@ ID = "C09"
 TITLE = "Landscape arithmetic is pointwise and leaves operands untouched"
 CASE_TIMEOUT_S = 60.0
 PLAN = {
-    "quick": {"runs": 6400, "chunk": 50, "shrink_s": 30.0},
+    "quick": {"runs": 24000, "chunk": 50, "shrink_s": 30.0},
     "thorough": {"budget_s": 600.0, "chunk": 50, "shrink_s": 60.0},
 }
 RULE = ("case = pool of 2..5 landscape objects (exact from diagrams, exact from critical points with interior values of "
@@ -152,6 +152,7 @@ class ExactM(object):
     def __init__(self, cps, hom_deg):
         self.cps = [[(float(x), float(y)) for x, y in d] for d in cps]
         self.hom_deg = hom_deg
+        self.tscale = self.scale()      # magnitude the tolerance refers to (propagated from the operands)
 
     def xs(self):
         return [x for d in self.cps for x, _ in d]
@@ -175,6 +176,7 @@ class ApproxM(object):
     def __init__(self, values, start, stop, num_steps, hom_deg):
         self.values = np.array(values, dtype=float).reshape(-1, int(num_steps)) if np.size(values) else np.zeros((0, int(num_steps)))
         self.start, self.stop, self.num_steps, self.hom_deg = float(start), float(stop), int(num_steps), hom_deg
+        self.tscale = self.scale()
 
     def grid(self):
         return (self.start, self.stop, self.num_steps)
@@ -392,7 +394,9 @@ def run_case(case, sched):
         for idx, (o, m) in enumerate(zip(objs, models)):
             if o is None:
                 continue
-            tol = 1e-9 * max(m.scale(), 1e-300) + 1e-11 * scale_x() * (1.0 if m.kind == "exact" else 0.0)
+            # relative to the magnitudes that went *into* the object: a result that cancels to ~0 carries
+            # rounding noise of the size of its operands, not of its own (tiny) values
+            tol = 1e-9 * max(m.tscale, 1e-300) + 1e-11 * scale_x() * (1.0 if m.kind == "exact" else 0.0)
             try:
                 obs = observe(o, Exact)
             except Violation:
@@ -553,13 +557,23 @@ def run_case(case, sched):
                     raise Violation("result==pointwise-definition", site, "count", "snap_pl returned %r items for %d inputs"
                                     % (len(out) if isinstance(out, list) else type(out), len(want)), opi)
                 for q, (o_, w_) in enumerate(zip(out, want)):
-                    compare(observe(o_, Exact), w_, 1e-9 * max(w_.scale(), 1e-300), t, site, "result==pointwise-definition",
+                    w_.tscale = max(w_.scale(), models[items[q]].tscale)
+                    compare(observe(o_, Exact), w_, 1e-9 * max(w_.tscale, 1e-300), t, site, "result==pointwise-definition",
                             "value", opi, "snapped landscape %d" % q)
                 out, res_model = out[0], want[0]
             else:
-                sc = max([m.scale() for m in allm] + [want.scale()])
-                tol = 1e-9 * max(sc, 1e-300) * max(1.0, abs(float(op.get("c", 1.0))) if kind in ("mul", "rmul") else 1.0) \
-                    + (1e-11 * scale_x() if want.kind == "exact" else 0.0)
+                opnds = [i for i in ([op.get("a"), op.get("b")] + list(op.get("items") or [])) if isinstance(i, int)]
+                cmag = 1.0
+                if kind in ("mul", "rmul"):
+                    cmag = abs(float(op.get("c", 1.0)))
+                elif kind == "div":
+                    cmag = 1.0 / abs(float(op.get("c", 1.0)))
+                elif kind == "lc":
+                    cmag = max([abs(float(c_)) for c_ in op.get("coeffs") or [1.0]] + [1e-300]) * len(opnds)
+                elif kind in ("add", "sub", "avg"):
+                    cmag = 2.0
+                want.tscale = max([want.scale()] + [models[i].tscale * cmag for i in opnds if models[i] is not None])
+                tol = 1e-9 * max(want.tscale, 1e-300) + (1e-11 * scale_x() if want.kind == "exact" else 0.0)
                 try:
                     obs = observe(out, Exact)
                 except Violation:
